@@ -1,10 +1,10 @@
-CONSTANTS Worlds <- WorldsSmall
+CONSTANTS Worlds <- WorldsOne
           Starts = {6}
           Horizon = 19
           MaxStep = 2
           CutLag = 2
           ExpLag = 3
-          Ns = {0, 2}
+          Ns = {2}
           EmptyAsNone = TRUE
           LiveRule = "post"
           MaxTrunc = 1
